@@ -317,3 +317,96 @@ Qed.
 Definition example_text : bytes :=
   ([32;13;10] ++ b!"2020-01-01" ++ [13;10] ++ b!"a" ++ [13] ++ b!"b" ++ [10] ++ [9;10;10]
    ++ b!"2020-01-02" ++ [10] ++ b!"    1h " ++ [255])%N.
+
+(* ================= the line splitter splits at every LF and nowhere else ================= *)
+
+(* new_line with its byte patterns written as tests *)
+Lemma new_line_spec raw :
+  new_line raw =
+  match rev raw with
+  | a :: r =>
+    if (a =? 10)%N then
+      match r with
+      | b :: r' => if (b =? 13)%N then {| l_text := rev r'; l_ending := [13; 10]%N |}
+                   else {| l_text := rev r; l_ending := [10%N] |}
+      | [] => {| l_text := rev r; l_ending := [10%N] |}
+      end
+    else {| l_text := raw; l_ending := [] |}
+  | [] => {| l_text := raw; l_ending := [] |}
+  end.
+Proof.
+  unfold new_line. destruct (rev raw) as [|a r]; [reflexivity|].
+  destruct a as [|p]; [reflexivity|].
+  repeat (try reflexivity; destruct p as [p|p|]).
+  destruct r as [|b r']; [reflexivity|].
+  destruct b as [|p]; [reflexivity|].
+  repeat (try reflexivity; destruct p as [p|p|]).
+Qed.
+
+(* a raw line: no LF except a final one; only the last raw line may lack it, and is then non-empty *)
+Definition raw_terminated (r : bytes) : Prop := exists t, r = t ++ [10%N] /\ ~ In 10%N t.
+Definition raw_open (r : bytes) : Prop := r <> [] /\ ~ In 10%N r.
+
+Inductive raw_list : list bytes -> Prop :=
+| rl_nil : raw_list []
+| rl_last r : raw_open r -> raw_list [r]
+| rl_cons r rl : raw_terminated r -> raw_list rl -> raw_list (r :: rl).
+
+Lemma raw_lines_acc_shape s cur : ~ In 10%N cur -> raw_list (raw_lines_acc s cur).
+Proof.
+  revert cur; induction s as [|c r IH]; intros cur Hc; cbn [raw_lines_acc].
+  - destruct cur as [|x cur]; [constructor|]. apply rl_last. split.
+    + intros E. apply (f_equal (@length _)) in E. rewrite rev_length in E. discriminate E.
+    + intros Hin. apply in_rev in Hin. exact (Hc Hin).
+  - destruct (c =? 10)%N eqn:E.
+    + apply N.eqb_eq in E. subst c. apply rl_cons; [|apply IH; intros []].
+      exists (rev cur). split; [reflexivity|]. intros Hin. apply in_rev in Hin. exact (Hc Hin).
+    + apply IH. intros [Hin|Hin]; [|exact (Hc Hin)]. apply N.eqb_neq in E. congruence.
+Qed.
+
+Definition ends_with (t : bytes) (c : N) : Prop := exists t', t = t' ++ [c].
+
+Lemma new_line_terminated r : raw_terminated r ->
+  ~ In 10%N (l_text (new_line r)) /\
+  ((l_ending (new_line r) = [10%N] /\ ~ ends_with (l_text (new_line r)) 13%N) \/
+   l_ending (new_line r) = [13; 10]%N).
+Proof.
+  intros (t & -> & Ht). rewrite new_line_spec, rev_app_distr. cbn [rev app]. rewrite N.eqb_refl.
+  destruct (rev t) as [|b r'] eqn:E.
+  - cbn [rev l_text l_ending]. split; [intros []|]. left. split; [reflexivity|].
+    intros (t' & Ht'). destruct t'; discriminate Ht'.
+  - assert (Et : t = rev r' ++ [b]) by (rewrite <- (rev_involutive t), E; reflexivity).
+    destruct (b =? 13)%N eqn:Eb; cbn [l_text l_ending].
+    + split; [|right; reflexivity]. intros Hin. apply Ht. rewrite Et. apply in_or_app. left. exact Hin.
+    + change (rev (b :: r')) with (rev r' ++ [b]). rewrite <- Et. split; [exact Ht|]. left. split; [reflexivity|].
+      intros (t' & Ht'). rewrite Et in Ht'. apply app_inj_tail in Ht' as [_ Hb].
+      apply N.eqb_neq in Eb. congruence.
+Qed.
+
+Lemma new_line_open r : raw_open r -> new_line r = {| l_text := r; l_ending := [] |}.
+Proof.
+  intros [Hne Hr]. rewrite new_line_spec. destruct (rev r) as [|a r'] eqn:E; [reflexivity|].
+  destruct (a =? 10)%N eqn:Ea; [|reflexivity]. apply N.eqb_eq in Ea. subst a.
+  elim Hr. apply in_rev. rewrite E. left. reflexivity.
+Qed.
+
+(* every line: no LF in its text; it ends in LF (then its text does not end in CR) or in CRLF;
+   only the last line may have no ending, and then it is not empty *)
+Theorem lines_wellformed s pre l post : lines_of s = pre ++ l :: post ->
+  ~ In 10%N (l_text l) /\
+  ((l_ending l = [10%N] /\ ~ (exists t, l_text l = t ++ [13%N])) \/
+   l_ending l = [13; 10]%N \/
+   (l_ending l = [] /\ post = [] /\ l_text l <> [])).
+Proof.
+  unfold lines_of, raw_lines. pose proof (raw_lines_acc_shape s [] (fun H => H)) as Hrl.
+  revert pre l post. induction Hrl as [|r Hr|r rl Hr Hrl IH]; intros pre l post H; cbn [map] in H.
+  - destruct pre; discriminate H.
+  - destruct pre as [|x pre]; [|destruct pre; discriminate H]. injection H as <- <-.
+    rewrite (new_line_open r Hr). cbn [l_text l_ending]. destruct Hr as [Hne Hr].
+    split; [exact Hr|]. right. right. repeat split. exact Hne.
+  - destruct pre as [|x pre].
+    + injection H as <- _. destruct (new_line_terminated r Hr) as [H1 [H2|H2]].
+      * split; [exact H1|]. left. exact H2.
+      * split; [exact H1|]. right. left. exact H2.
+    + injection H as _ H. exact (IH _ _ _ H).
+Qed.
